@@ -440,7 +440,11 @@ The correspondence run also records histories of concurrent tasks and searches f
 linearization (`Basic/HealthLin`).  The search commits to a call whose answer is "read-only"
 (a Check, a poll that delivered nothing, an operation on an empty slot) as soon as it is
 enabled and accepted, instead of branching.  That is complete for the model because such a
-call leaves the model state untouched, so it can be moved to the front of any linearization: -/
+call leaves the model state untouched, so it can be moved to the front of any linearization
+(theorem below; stated for the MODEL acceptor only — for the clause acceptor `Spec.Health.accept`,
+whose state is the log and does grow on such calls, completeness of the commit rule is not proved;
+it concerns completeness only: a wrong commit could cause a false `not-linearizable`, never an
+unfounded `ok`, which is what `C18_linearization_search_sound` excludes for both acceptors): -/
 
 /-- A call answered in a read-only way does not change the model state. -/
 theorem C18_readonly_answers_keep_state (s : H) (op : Op)
